@@ -76,7 +76,7 @@ mech("oneof-flatten-codec",
  [("C01","deliver/body/oneof_flatten/*",["handler-not-reached","client-error","request-changed","response-changed"],None),
   ("C04","codec/oneof_flatten/*",["decode-own-output","canon-changed","roundtrip-changed","canon-decode-error"],None),
   ("C05","json/oneof_flatten/*",J5,None,"*/disc"),("C05","json/*/ctx=disc_flatten/*",J5,None,"*/disc"),
-  ("C07","tstype/oneof_flatten/*",["undeclared-property","missing-property","wrong-type","literal-mismatch"],None),("C07","tstype/*/ctx=disc_flatten/*",["undeclared-property","missing-property","wrong-type","literal-mismatch"],None)])
+  ("C07","tstype/oneof_flatten/*",["undeclared-property","missing-property","wrong-type","literal-mismatch"],"role:{*/?,/msg:dvar,/ovar(*,/}"),("C07","tstype/*/ctx=disc_flatten/*",["undeclared-property","missing-property","wrong-type","literal-mismatch"],"role:{*/?,/msg:dvar,/ovar(*,/}")])
 
 mech("enum-value-not-applied",
  "enum_value custom JSON strings are only attached to the enum type's MarshalJSON, which protojson never calls: messages still carry proto enum names while OpenAPI and TypeScript publish the custom strings",
@@ -171,7 +171,7 @@ mech("go-optional-override-ignored",
 
 mech("ts-no-header-override",
  "TS server validates service-level and method-level declarations of the same header both (no method-replaces-service), also across case variants",
- [("C09","hdr/ts/override/*",["valid-headers-rejected","violations-differ"],None),("C09","hdr/ts/order/*override-*",["valid-headers-rejected","violations-differ"],None)])
+ [("C09","hdr/ts/override/*",["valid-headers-rejected","violations-differ"],None),("C09","hdr/ts/order/*override-*",["valid-headers-rejected","violations-differ"],None),("C09","hdr/ts/multi-method/override-in-one-method/method1-*",["valid-headers-rejected","violations-differ"],None)])
 
 mech("openapi-plain-scalar-retyping",
  "enum_value / example strings are written to the YAML document as plain scalars: a value such as .inf is read back as a float and format=json rendering panics",
@@ -219,8 +219,10 @@ mech("two-codec-annotations-one-message",
  [("C13","gobuild/pair/*",["compile"],"*already declared at*")])
 
 mech("unwrap-parent-reencodes-siblings",
- "the unwrap codec of a parent message re-implements the encoding of all sibling fields and does not know optional, Timestamp, oneof or scalar-only layouts",
- [("C13","gobuild/pair/*",["compile"],"_unwrap.pb.go*")])
+ "the unwrap codec of a parent message re-implements the encoding of all sibling fields and does not know optional, Timestamp, oneof or scalar-only layouts; a 64-bit sibling written as a JSON string (the proto3 JSON form) is rejected",
+ [("C13","gobuild/pair/*",["compile"],"_unwrap.pb.go*"),
+  ("C04","codec/unwrap/siblings/*",["canon-decode-error","decode-own-output"],"json: cannot unmarshal string into Go value of type int64*"),
+  ("C05","json/unwrap/siblings/*/dir=req*",["contract-form-rejected"],"st400 json: cannot unmarshal string into Go value of type int64*")])
 
 mech("annotations-on-oneof-members",
  "int64_encoding / bytes_encoding / timestamp_format / empty_behavior on a oneof member: emitted codec reads x.<Field> which does not exist for oneof members",
